@@ -123,6 +123,20 @@ func newMaterial() (m *material, err error) {
 		}
 	}
 
+	// a self-signed end-entity certificate that a client pins as its only trust anchor (IsCA is false)
+	{
+		k, err := ecdsa.GenerateKey(elliptic.P256(), rand.Reader)
+		if err != nil {
+			return nil, err
+		}
+		t := tmpl("pinned server")
+		t.DNSNames = []string{"pinned.test"}
+		t.KeyUsage = x509.KeyUsageDigitalSignature
+		t.ExtKeyUsage = []x509.ExtKeyUsage{x509.ExtKeyUsageServerAuth}
+		if m.cas["pinned"], err = issue(t, t, &k.PublicKey, k); err != nil {
+			return nil, err
+		}
+	}
 	for _, s := range []struct{ name, issuer string }{{"good", "ca"}, {"rogue", "rogue"}} {
 		k, err := ecdsa.GenerateKey(elliptic.P256(), rand.Reader)
 		if err != nil {
